@@ -55,7 +55,10 @@ class Overlay(abstract.Module):
       subst: dict[str, cfg.Variable] | None = None,
   ) -> cfg.Variable:
     val = member(self.ctx, self.name)
-    val.module = self.name
+    # A member can be an alias of a builtin (typing.Text and typing.LiteralString
+    # are `str`); the shared builtin value must keep its module.
+    if val.module != "builtins":
+      val.module = self.name
     return val.to_variable(self.ctx.root_node)
 
   def get_module(self, name):
